@@ -122,6 +122,35 @@ func (c *Ctx) ltxPublication(only ...string) {
 	}
 }
 
+// ltxPublicationNames decides only P1 (temp names) for all publishers (C09).
+func (c *Ctx) ltxPublicationNames() {
+	p := c.P
+	rename := p.Calls("litefs.OS.Rename")
+	create := p.Calls("litefs.OS.Create")
+	for _, s := range c.publishers() {
+		if !s.ltx {
+			continue
+		}
+		short := s.fn[strings.LastIndex(s.fn, ".")+1:]
+		fn := c.F(s.fn)
+		k := "tmp/" + short
+		if !c.need(k, "K6 Origin", "publisher resolves", fn, s.fn) {
+			continue
+		}
+		rn, cr := Instrs(fn, rename), Instrs(fn, create)
+		if len(rn) != 1 || len(cr) != 1 {
+			c.fail(k, "K8 table", "one Create and one Rename", "", fmt.Sprintf("%d/%d", len(cr), len(rn)), 0)
+			continue
+		}
+		oldp, newp, cname := c.argR(rn[0], 2), c.argR(rn[0], 3), c.argR(cr[0], 2)
+		if oldp == cname && (oldp == "("+newp+` + ".tmp")` || strings.HasPrefix(oldp, `fmt.Sprintf("%s.%d.tmp"`)) && strings.Contains(newp, "LTXPath(") {
+			c.ok(k, "K6 Origin", "the transaction file is written under <final>.tmp (or <final>.<n>.tmp) and renamed to LTXPath(min,max)", 1)
+		} else {
+			c.fail(k, "K6 Origin", "the transaction file is written under <final>.tmp (or <final>.<n>.tmp) and renamed to LTXPath(min,max)", "a half-written file under a name that parses as a transaction breaks the chain", fmt.Sprintf("create %q rename %q -> %q", cname, oldp, newp), 1)
+		}
+	}
+}
+
 // ---- header provenance (§3.2) ----
 
 // structArgFields returns field name -> rendered origin for a struct-valued
